@@ -255,8 +255,17 @@ impl Case {
         }
     }
 
-    /// Execute one label; returns its token.
+    /// Execute one label; returns its token: what the thread did (`-` nothing to do, `B` blocked,
+    /// `P` recv pending, `=res` operation finished, else the yield point it is now parked at)
+    /// followed by `+` if the producer lock and `*` if the consumer-side lock is held afterwards.
     pub fn step(&mut self, l: &Label) -> String {
+        let mut t = self.step_inner(l);
+        if self.push_locked() { t.push('+'); }
+        if self.sh.track.verif_pop_locked() { t.push('*'); }
+        t
+    }
+
+    fn step_inner(&mut self, l: &Label) -> String {
         if self.timeout { return "TIMEOUT".into(); }
         match self.avail(l.tid) {
             Avail::NoHandle => "-".into(),
